@@ -66,6 +66,26 @@ fn smooth_once<'a, T: IteTable<'a, BddPtr<'a>> + Default>(
     let lv = order_levels(b.order());
     let order: Vec<usize> = b.order().in_order_iter().map(|v| v.value_usize()).collect();
     let lo = bdd_nodes(f).iter().map(|nd| lv[nd.var.value_usize()] + 1).max().unwrap_or(0);
+    // one call in six smooths over a prefix that ends above the deepest variable of f: the function must stay, and every
+    // path must test the prefix's variables once each, in order, before anything else (no count is claimed there)
+    if lo >= 2 && ns_sel % 6 == 5 {
+        let short = (ns_sel as usize / 6) % lo;
+        let s = b.smooth(f, short);
+        ensure!(bdd_tt(s) == t, "C08/function-changed", "smooth(f, {}) denotes {:?} but f denotes {:?} (f tests variables down to level {}); f = {}, order = {:?}", short, bdd_tt(s), t, lo - 1, f.to_string_debug(), order);
+        if let Some(paths) = bdd_paths(s, 100_000) {
+            for p in paths {
+                ensure!(
+                    p.len() >= short && p[..short] == order[..short] && p[short..].iter().all(|v| !order[..short].contains(v)),
+                    "C08/path-does-not-test-each-variable-once-in-order",
+                    "smooth(f, {}) has a path testing {:?}; every path must begin with {:?} and test none of them again; f = {}",
+                    short,
+                    p,
+                    &order[..short],
+                    f.to_string_debug()
+                );
+            }
+        }
+    }
     let ns = lo + (((ns_sel as usize) * (n - lo + 1)) >> 8);
     debug_assert!(ns >= lo && ns <= n);
 
@@ -501,7 +521,7 @@ pub fn property() -> Property {
         subs: vec![sub::<Smooth>(), sub::<SmoothWide>()],
         fuzz: vec![],
         assumptions: vec![
-            "the smoothed BDD only mentions variables among the first n_s levels (the documented precondition); exhaustive path and count oracles for n_s <= 8, sampled paths and closed-form counts up to 20 variables (at most 13 don't-care levels: smooth() is exponential in their number)",
+            "counts are claimed only when the BDD mentions no variable beyond the first n_s levels (shorter prefixes: function and path prefix only); exhaustive path and count oracles for n_s <= 8, sampled paths and closed-form counts up to 20 variables (at most 13 don't-care levels: smooth() is exponential in their number)",
             "integer weights so that f64 results are exact and compared with ==",
         ],
         nt_floor_percent: 20,
